@@ -763,16 +763,12 @@ def extra_obligations(tier):
     """BaseFiles.if_none_match is translated to Gallina from the source in BAIZE_REPO as it is now, and coqc re-checks
     C14/Translated.v (translated function = C14.Model.if_none_match, for all texts) against the fresh definition; the
     PyStr functions the translation is made of are compared with the interpreter's own str methods (the PyStr case
-    stream lives in tools/py2coq.py: pystr_checks)."""
+    stream is pystr_checks in tools/py2coq.py)."""
     import importlib.util
-    from concurrent.futures import ThreadPoolExecutor
     spec = importlib.util.spec_from_file_location("py2coq", os.path.join(core.VERIF, "tools", "py2coq.py"))
     py2coq = importlib.util.module_from_spec(spec)
     spec.loader.exec_module(py2coq)
-    with ThreadPoolExecutor(2) as ex:
-        a = ex.submit(py2coq.check_target, PID, core.REPO, core.VERIF, 120)
-        b = ex.submit(py2coq.pystr_check, core.VERIF, 120)
-        return list(a.result()) + list(b.result())
+    return py2coq.obligations(PID, core.REPO, core.VERIF)
 
 
 if __name__ == "__main__":
